@@ -629,6 +629,7 @@ type l1In struct {
 	SegID    uint64 `json:"seg_id,omitempty"` // the integer in the URL ($Number$ or $Time$)
 	NowMS    int64  `json:"now_ms,omitempty"`
 	StartNr  int64  `json:"start_nr,omitempty"`
+	After    string `json:"requested_after,omitempty"` // history runs: the configuration requested just before on the same server
 	// the frame duration the MPD code works with differs from the frame duration of the representation
 	SampleDurMismatch bool `json:"sampledur_mismatch,omitempty"`
 }
@@ -1097,6 +1098,79 @@ func (r *run) timelineRun(as *assetState, prefix string, nowMS int64, nFetch int
 	}
 }
 
+// historyRun: the served audio segment is a function of (representation, n) alone, so it must not depend on
+// what the same server was asked before. For segment n at the live edge the same long-lived server is asked:
+// clear, then the same segment under another configuration (encrypted cbcs/cenc, low-latency chunked,
+// SegmentTimeline $Time$ / $Number$ addressing), then clear again, and so on. Every clear answer gets the
+// whole oracle (frame by frame against the VoD source) and goes to the model; the other answers must have
+// the same start, end and number of frames (and the same frames unless encrypted); a repeated identical
+// request must give identical bytes.
+func (r *run) historyRun(as *assetState, n int64, variants []string) {
+	c := r.c
+	_, eLast := as.refSeg(n)
+	nowMS := int64((eLast*1000+as.R-1)/as.R) + 1500 + int64(r.rng.Intn(1000))
+	t, err := as.getTmpl("", nowMS)
+	if err != nil {
+		if !as.d.Scratch {
+			return
+		}
+		t = &tmpl{audio: "$RepresentationID$/$Number$.m4s", audioRep: "A48", video: "$RepresentationID$/$Number$.m4s", videoRep: "V300"}
+	}
+	nr := n + t.startNr
+	s0, e0 := as.refSeg(n)
+	clear := func(after string) []byte {
+		in := l1In{Kind: "l1", Asset: as.d.Name, Mode: "number", N: nr, SegID: uint64(nr), NowMS: nowMS, StartNr: t.startNr, RefStart: s0, RefEnd: e0, After: after}
+		in.AudioURL = fmt.Sprintf("/livesim2/%s/%s?nowMS=%d", as.d.URLPath, fillT(t.audio, t.audioRep, uint64(nr)), nowMS)
+		r.fetchAudio(as, in, nr)
+		c.Count("l1:history:clear-after:" + after)
+		return as.ls.GetRaw(in.AudioURL).Body
+	}
+	first := clear("nothing")
+	expStart, expEnd, expIdx := expectedFrames(s0, e0, as.D, as.R, as.F, as.A, int64(len(as.src)))
+	for _, v := range variants {
+		vt, err := as.getTmpl(v, nowMS)
+		if err != nil {
+			continue // this configuration has no MPD for the asset (reported by the other runs where it matters)
+		}
+		id := uint64(nr)
+		if strings.Contains(vt.audio, "$Time$") {
+			id = expStart
+		}
+		url := fmt.Sprintf("/livesim2/%s%s/%s?nowMS=%d", v, as.d.URLPath, fillT(vt.audio, vt.audioRep, id), nowMS)
+		in := l1In{Kind: "l1", Asset: as.d.Name, Mode: "history:" + v, N: nr, AudioURL: url, RefStart: s0, RefEnd: e0, After: "clear"}
+		resp := as.ls.GetRaw(url)
+		switch {
+		case resp.Panic != "":
+			c.Fail("", "panic:"+resp.Panic, "audio segment request panics", in)
+		case resp.Status != 200:
+			c.Fail("", fmt.Sprintf("history-status-%d", resp.Status), "available audio segment not served under configuration "+v, in)
+		default:
+			ps, err := parseMedia(resp.Body, as.audio.trex)
+			if err != nil {
+				c.Fail("", "unparsable-segment", err.Error(), in)
+				break
+			}
+			if ps.Tfdt != expStart || ps.Tfdt+ps.dur() != expEnd || uint64(len(ps.Frames))*as.F != expEnd-expStart {
+				c.Fail("", "history-boundary", fmt.Sprintf("under configuration %s the segment is [%d,%d) with %d frames, expected [%d,%d)", v, ps.Tfdt, ps.Tfdt+ps.dur(), len(ps.Frames), expStart, expEnd), in)
+			} else if !strings.HasPrefix(v, "eccp_") {
+				for k := range expIdx {
+					if as.src[expIdx[k]].Hash != ps.Frames[k].Hash {
+						c.Fail("", "history-frame-content", fmt.Sprintf("under configuration %s frame %d is not source frame %d", v, k, expIdx[k]), in)
+						break
+					}
+				}
+			}
+		}
+		c.Count("l1:history:" + v)
+		again := clear(v)
+		if first != nil && again != nil && !bytes.Equal(first, again) {
+			in.Mode, in.After = "number", v
+			in.AudioURL = fmt.Sprintf("/livesim2/%s/%s?nowMS=%d", as.d.URLPath, fillT(t.audio, t.audioRep, uint64(nr)), nowMS)
+			c.Fail("", "history-dependent-bytes", "the same clear request is answered with other bytes after a request under configuration "+v, in)
+		}
+	}
+}
+
 func (r *run) l1(states []*assetState) {
 	thorough := r.c.Thorough()
 	for _, as := range states {
@@ -1131,6 +1205,24 @@ func (r *run) l1(states []*assetState) {
 		}
 		for _, n0 := range starts {
 			r.numberRun(as, "", n0, L)
+		}
+		// request histories on the one server instance
+		variants := []string{"eccp_cbcs/", "eccp_cenc/", "ato_1/chunkdur_0.5/", "segtimeline_1/", "segtimelinenr_1/"}
+		nHist := 2
+		if thorough {
+			nHist = 12
+		}
+		for i := 0; i < nHist; i++ {
+			n := 3*N + r.rng.Int63n(400*N)
+			if i == 1 {
+				n = (4+r.rng.Int63n(300))*N - 1 // last segment of a loop
+			}
+			vs := append([]string{}, variants...)
+			r.rng.Shuffle(len(vs), func(a, b int) { vs[a], vs[b] = vs[b], vs[a] })
+			if !thorough {
+				vs = append(vs[:0:0], "eccp_cbcs/", vs[r.rng.Intn(len(vs))], vs[r.rng.Intn(len(vs))])
+			}
+			r.historyRun(as, n, vs)
 		}
 		// SegmentTimeline with $Time$ and with $Number$
 		nTL := 5
